@@ -7,6 +7,7 @@ import B3.Proofs.Xof
 import B3.Proofs.Final
 import B3.Proofs.GenK
 import B3.Proofs.Regions
+import B3.Proofs.OutputPlan
 namespace B3.Props.C06
 open B3
 
@@ -97,5 +98,13 @@ theorem c_update_subtree_len_is_model (n cc : Nat) (h1 : 0 < n) (h2 : n < 2 ^ 64
     (n < 2 ^ 63 → Gen.C.update_subtree_len n cc = Gen.Rs.update_subtree_len n cc) :=
   ⟨Proofs.c_update_subtree_len_eq n cc h1 h2 h3,
    fun h => by rw [Proofs.c_update_subtree_len_eq n cc h1 h2 h3, Proofs.rs_update_subtree_len_eq n cc h1 h h3]⟩
+
+/-- `output_root_bytes` as translated from c/blake3.c (its list of writes, `Gen.C.output_root_plan`)
+delivers exactly the stream slice `S[seek, seek + out_len)` of the root node, for every seek and length
+below 2^64 -/
+theorem c_output_root_bytes_translated_eq_stream (o : Spec.Node) (hb : o.blen ≤ 64) (seek outLen : Nat)
+    (hs : seek < 2 ^ 64) (ho : outLen < 2 ^ 64) :
+    ((Gen.C.output_root_plan seek outLen).map (Gen.C.Ev.bytes Kern.spec o)).flatten = o.stream seek outLen := by
+  rw [Proofs.plan_bytes Kern.spec o seek outLen hs ho, Proofs.c_outputRootBytes_eq o hb]
 
 end B3.Props.C06
